@@ -192,6 +192,18 @@ def get_all_rules(rules_path=None, match_mode='first_match'):
 
         # CSV format (legacy)
         user_rules = load_merchant_rules(rules_path)
+        if match_mode == 'most_specific' and user_rules:
+            # The tuple matcher below only knows file order. In most_specific mode classify
+            # through the engine built from the CSV rows, exactly what the migrated
+            # merchants.rules would do - otherwise the configured mode is silently ignored
+            try:
+                from .merchant_engine import load_csv_as_engine
+                from pathlib import Path
+                _cached_engine = load_csv_as_engine(Path(rules_path), match_mode=match_mode)
+                _cached_engine_path = rules_path
+            except Exception:
+                _cached_engine = None
+                _cached_engine_path = None
         # Add source='user' to each rule
         for rule in user_rules:
             if len(rule) == 6:
